@@ -495,7 +495,7 @@ class SystemLoss:
                 for k in param_keys:
                     eq[k] = AT((1,), np.array([Poly.atom(('P', k, (), frozenset({rows}), False))], dtype=object))
                 pd = pd.replace_fields({'eq_params': eq})
-            if self.net_kind == 'PINN':
+            if self.net_kind in ('PINN', 'HYPERPINN'):
                 R = eqf(*row_point(self.eq_type, self.d), self.u_dict, pd)
                 s = weighted_sq_sum(1, R)
                 acc = acc + w * mean_over((rows,), prepend(s, rows)).data[()]
